@@ -1,1 +1,1207 @@
-fn main() {}
+//! C09 — timers never fire early and always fire (DESIGN.md §3 C09).
+//!
+//! The harness owns the event loop (`Runtime::{enter, run, poll, poll_with, current_timeout}`), so the
+//! oracles do not depend on scheduling noise:
+//!
+//! * never early (exact): every completion `Instant` is >= the (lower bound of the) deadline;
+//! * `current_timeout()` read between two loop steps is never larger than the distance to the
+//!   nearest timer known to be in the wheel, is `Some` while such a timer exists, and is `None`
+//!   when no timer future is left (no residue after completions and drops);
+//! * always fires (deterministic form): a wheel entry whose deadline lies before the instant read
+//!   just before a `poll`/`poll_with` call must have completed its future once that call returned and
+//!   every woken task / held future was polled; a pending timer future with an empty wheel can
+//!   never complete;
+//! * `Timeout` is `Ok` iff the inner future finished first (inner futures finish clearly before or
+//!   never during the life of the timeout);
+//! * interval ticks are `start + k * period` exactly, strictly increasing, and complete >= tick.
+use std::{
+    cell::RefCell,
+    collections::BinaryHeap,
+    future::Future,
+    os::fd::{AsRawFd, FromRawFd, OwnedFd},
+    pin::Pin,
+    rc::Rc,
+    sync::{
+        atomic::{AtomicBool, AtomicUsize, Ordering},
+        Arc, Condvar, Mutex,
+    },
+    task::{Context, Poll, Wake, Waker},
+    time::{Duration, Instant},
+};
+
+use compio_buf::BufResult;
+use compio_driver::{DriverType, ProactorBuilder};
+use compio_io::AsyncRead;
+use compio_runtime::{
+    fd::AsyncFd,
+    time::{interval, interval_at, sleep, sleep_until, timeout, timeout_at, Interval},
+    JoinHandle, RuntimeBuilder,
+};
+use serde::{Deserialize, Serialize};
+use vcore::{
+    proptest::{self, collection::vec, prelude::*},
+    Outcome, Part, Session,
+};
+
+// ------------------------------------------------------------------------------------------------
+// case type
+
+/// deadline class, relative to the instant of creation (`Group` is relative to the case start, so
+/// that several timers share the *same* `Instant`)
+#[derive(Debug, Clone, Copy, Serialize, Deserialize, PartialEq)]
+pub enum Dl {
+    Past(u8),
+    Now,
+    Group(u8),
+    Near(u8),
+    Far(u16),
+}
+
+pub const GROUPS_MS: [u64; 3] = [15, 25, 60];
+
+#[derive(Debug, Clone, Copy, Serialize, Deserialize, PartialEq)]
+pub enum Inner {
+    /// ready at the first poll
+    Ready,
+    /// never finishes
+    Pending,
+    /// a sleep that ends `lead_ms` (30..=100) before the outer deadline
+    SleepShort { lead_ms: u8 },
+    /// a sleep that ends 5 s after the outer deadline
+    SleepLong,
+    /// a one-byte pipe read, fed by the harness `lead_ms` (30..=100) before the outer deadline
+    PipeFed { lead_ms: u8 },
+    /// a pipe read that is never fed
+    PipeNeverFed,
+}
+
+#[derive(Debug, Clone, Copy, Serialize, Deserialize, PartialEq)]
+pub enum Kind {
+    Sleep,
+    SleepUntil,
+    Timeout(Inner),
+    TimeoutAt(Inner),
+    /// `interval(period)`: first tick at once
+    Interval { period_ms: u8, ticks: u8 },
+    /// `interval_at(deadline, period)`
+    IntervalAt { period_ms: u8, ticks: u8 },
+}
+
+#[derive(Debug, Clone, Serialize, Deserialize, PartialEq)]
+pub struct TimerSpec {
+    /// created this many ms after the case start (list order breaks ties)
+    pub create_ms: u8,
+    pub kind: Kind,
+    pub dl: Dl,
+    /// hosted in a spawned task (polled by `Runtime::run`) or held and polled by the harness loop
+    pub task: bool,
+    /// dropped this many ms after its creation unless it finished before
+    pub drop_after_ms: Option<u16>,
+    /// the harness deliberately does not step the runtime across the deadline (for a timeout with a
+    /// finishing inner future: from just before the inner future finishes until after the outer
+    /// deadline, so that both are ready at the same poll — the inner still finished first)
+    #[serde(default)]
+    pub stall: bool,
+}
+
+#[derive(Debug, Clone, Copy, Serialize, Deserialize, PartialEq)]
+pub enum Noise {
+    /// another thread writes a byte into a pipe a runtime task is reading
+    PipeByte,
+    /// another thread wakes a runtime task
+    CrossWake,
+}
+
+#[derive(Debug, Clone, Serialize, Deserialize, PartialEq)]
+pub struct TimerCase {
+    pub poll_driver: bool,
+    /// index into [1, 2, 61]
+    pub event_interval: u8,
+    pub timers: Vec<TimerSpec>,
+    pub noise: Vec<(u16, Noise)>,
+}
+
+// ------------------------------------------------------------------------------------------------
+// records written by the timer futures themselves
+
+#[derive(Debug, Clone)]
+enum Rec {
+    /// a sleep finished / a timeout resolved
+    Done { i: usize, at: Instant, ok: Option<bool>, data: Option<u8> },
+    /// the inner sleep of a timeout finished
+    InnerDone { i: usize, at: Instant },
+    Tick { i: usize, k: usize, tick: Instant, at: Instant },
+    IntervalDone { i: usize },
+}
+
+type Log = Rc<RefCell<Vec<Rec>>>;
+
+/// a wheel entry the harness knows about
+#[derive(Debug, Clone)]
+struct Entry {
+    owner: usize,
+    /// true for the inner sleep of a timeout
+    inner: bool,
+    lower: Instant,
+    upper: Instant,
+    /// the deadline was still in the future after the creating call returned => certainly inserted
+    definite: bool,
+    alive: bool,
+}
+
+struct FlagWaker {
+    flag: AtomicBool,
+    inner: Waker,
+    wakes: AtomicUsize,
+}
+
+impl Wake for FlagWaker {
+    fn wake(self: Arc<Self>) {
+        self.wake_by_ref()
+    }
+
+    fn wake_by_ref(self: &Arc<Self>) {
+        self.flag.store(true, Ordering::SeqCst);
+        self.wakes.fetch_add(1, Ordering::Relaxed);
+        self.inner.wake_by_ref();
+    }
+}
+
+enum Host {
+    NotCreated,
+    Held { fut: Pin<Box<dyn Future<Output = ()>>>, flag: Arc<FlagWaker> },
+    Task(JoinHandle<()>),
+    /// completed or dropped
+    Gone,
+}
+
+struct TimerState {
+    host: Host,
+    created: Option<Instant>,
+    /// lower bound of the outer deadline (exact for the absolute kinds)
+    deadline: Option<Instant>,
+    absolute: bool,
+    done: bool,
+    dropped: bool,
+    dropped_before_expiry: bool,
+    /// effective inner after the by-construction adjustment
+    inner: Option<Inner>,
+    fed_at: Option<Instant>,
+    feed_fd: Option<OwnedFd>,
+    /// interval bookkeeping
+    period: Option<Duration>,
+    first_tick: Option<Instant>,
+    last_tick: Option<Instant>,
+    ticks_seen: usize,
+}
+
+#[derive(PartialEq, Eq)]
+struct Ev {
+    at: Instant,
+    seq: usize,
+    what: EvKind,
+}
+
+#[derive(PartialEq, Eq, Clone, Copy)]
+enum EvKind {
+    Create(usize),
+    Drop(usize),
+    Feed(usize),
+    /// do not step the runtime until this instant
+    Stall(Instant),
+}
+
+impl Ord for Ev {
+    fn cmp(&self, o: &Self) -> std::cmp::Ordering {
+        // min-heap on (at, seq)
+        o.at.cmp(&self.at).then(o.seq.cmp(&self.seq))
+    }
+}
+
+impl PartialOrd for Ev {
+    fn partial_cmp(&self, o: &Self) -> Option<std::cmp::Ordering> {
+        Some(self.cmp(o))
+    }
+}
+
+/// cross-thread wake target: a future that completes a round each time the noise thread bumps the
+/// counter and wakes the registered waker
+#[derive(Default)]
+struct CrossSlot {
+    waker: Mutex<Option<Waker>>,
+    bumps: AtomicUsize,
+}
+
+struct CrossWait {
+    slot: Arc<CrossSlot>,
+    seen: usize,
+}
+
+impl Future for CrossWait {
+    type Output = usize;
+
+    fn poll(mut self: Pin<&mut Self>, cx: &mut Context<'_>) -> Poll<usize> {
+        *self.slot.waker.lock().unwrap() = Some(cx.waker().clone());
+        let b = self.slot.bumps.load(Ordering::SeqCst);
+        if b > self.seen {
+            self.seen = b;
+            Poll::Ready(b)
+        } else {
+            Poll::Pending
+        }
+    }
+}
+
+fn mk_pipe() -> std::io::Result<(OwnedFd, OwnedFd)> {
+    let mut fds = [0i32; 2];
+    if unsafe { libc::pipe2(fds.as_mut_ptr(), libc::O_CLOEXEC | libc::O_NONBLOCK) } < 0 {
+        return Err(std::io::Error::last_os_error());
+    }
+    Ok(unsafe { (OwnedFd::from_raw_fd(fds[0]), OwnedFd::from_raw_fd(fds[1])) })
+}
+
+fn write_byte(fd: &OwnedFd, b: u8) -> bool {
+    unsafe { libc::write(fd.as_raw_fd(), (&b as *const u8).cast(), 1) == 1 }
+}
+
+/// A violation that can only be produced by the code under test, whatever the machine does.
+fn hard(sig: &str, detail: String) -> Verdict {
+    Verdict::Violation { soft: false, sig: sig.into(), detail }
+}
+
+/// A violation that rests on a wall-clock margin; reported only when it reproduces on every re-run.
+fn soft(sig: &str, detail: String) -> Verdict {
+    Verdict::Violation { soft: true, sig: sig.into(), detail }
+}
+
+enum Verdict {
+    Pass { nontrivial: bool, labels: Vec<String> },
+    Violation { soft: bool, sig: String, detail: String },
+    Inconclusive(String),
+}
+
+fn ms(x: u64) -> Duration {
+    Duration::from_millis(x)
+}
+
+const MARGIN: Duration = Duration::from_millis(20);
+
+struct NoiseCtl {
+    stop: Mutex<bool>,
+    cv: Condvar,
+    rescued: AtomicBool,
+}
+
+fn run_once(case: &TimerCase) -> Verdict {
+    let driver = if case.poll_driver { DriverType::Poll } else { DriverType::IoUring };
+    let mut pb = ProactorBuilder::new();
+    pb.driver_type(driver);
+    let ei = [1usize, 2, 61][case.event_interval as usize % 3];
+    let rt = match RuntimeBuilder::new().with_proactor(pb).event_interval(ei).build() {
+        Ok(rt) => rt,
+        Err(e) => return Verdict::Inconclusive(format!("runtime build: {e}")),
+    };
+    let n = case.timers.len();
+    let log: Log = Rc::new(RefCell::new(vec![]));
+
+    // noise plumbing
+    let (noise_rx, noise_tx) = match mk_pipe() {
+        Ok(p) => p,
+        Err(e) => return Verdict::Inconclusive(format!("pipe: {e}")),
+    };
+    let cross = Arc::new(CrossSlot::default());
+    let ctl = Arc::new(NoiseCtl { stop: Mutex::new(false), cv: Condvar::new(), rescued: AtomicBool::new(false) });
+    let noise_seen = Rc::new(RefCell::new((0usize, 0usize)));
+
+    let verdict = rt.enter(|| {
+        let base = Instant::now();
+        // planned end of the case: last creation + far deadline + slack
+        let planned_end = base + ms(40 + 600 + 100);
+        let rescue_at = planned_end + ms(2500);
+
+        // background tasks without timers
+        let mut bg: Vec<JoinHandle<()>> = vec![];
+        match AsyncFd::new(noise_rx) {
+            Ok(afd) => {
+                let seen = noise_seen.clone();
+                bg.push(rt.spawn(async move {
+                    loop {
+                        let BufResult(r, _) = (&afd).read(Vec::with_capacity(8)).await;
+                        match r {
+                            Ok(0) | Err(_) => break,
+                            Ok(k) => seen.borrow_mut().0 += k,
+                        }
+                    }
+                }));
+            }
+            Err(e) => return Verdict::Inconclusive(format!("attach: {e}")),
+        }
+        {
+            let slot = cross.clone();
+            let seen = noise_seen.clone();
+            bg.push(rt.spawn(async move {
+                let mut last = 0;
+                loop {
+                    last = CrossWait { slot: slot.clone(), seen: last }.await;
+                    seen.borrow_mut().1 = last;
+                }
+            }));
+        }
+        // noise thread (joined before the case returns)
+        let noise_thread = {
+            let mut sched: Vec<(u64, Noise)> = case.noise.iter().map(|&(at, k)| (at as u64 % 700, k)).collect();
+            sched.sort_by_key(|x| x.0);
+            let ctl = ctl.clone();
+            let cross = cross.clone();
+            let waker = rt.waker();
+            std::thread::Builder::new()
+                .name("c09-noise".into())
+                .spawn(move || {
+                    let wait_until = |t: Instant| -> bool {
+                        // returns true when asked to stop
+                        let mut g = ctl.stop.lock().unwrap();
+                        loop {
+                            if *g {
+                                return true;
+                            }
+                            let now = Instant::now();
+                            if now >= t {
+                                return false;
+                            }
+                            g = ctl.cv.wait_timeout(g, t - now).unwrap().0;
+                        }
+                    };
+                    for (at, k) in sched {
+                        if wait_until(base + ms(at)) {
+                            return;
+                        }
+                        match k {
+                            Noise::PipeByte => {
+                                write_byte(&noise_tx, 1);
+                            }
+                            Noise::CrossWake => {
+                                cross.bumps.fetch_add(1, Ordering::SeqCst);
+                                let w = cross.waker.lock().unwrap().clone();
+                                if let Some(w) = w {
+                                    w.wake();
+                                }
+                            }
+                        }
+                    }
+                    // rescue stimulus: redundant if the runtime honours its own timeouts
+                    if !wait_until(rescue_at) {
+                        ctl.rescued.store(true, Ordering::SeqCst);
+                        waker.wake();
+                    }
+                })
+                .expect("spawn noise thread")
+        };
+
+        let mut st: Vec<TimerState> = (0..n)
+            .map(|_| TimerState {
+                host: Host::NotCreated,
+                created: None,
+                deadline: None,
+                absolute: false,
+                done: false,
+                dropped: false,
+                dropped_before_expiry: false,
+                inner: None,
+                fed_at: None,
+                feed_fd: None,
+                period: None,
+                first_tick: None,
+                last_tick: None,
+                ticks_seen: 0,
+            })
+            .collect();
+        let mut entries: Vec<Entry> = vec![];
+        let mut heap = BinaryHeap::new();
+        let mut seq = 0usize;
+        for (i, t) in case.timers.iter().enumerate() {
+            heap.push(Ev { at: base + ms(t.create_ms as u64 % 41), seq, what: EvKind::Create(i) });
+            seq += 1;
+        }
+        let mut labels: Vec<String> = vec![format!("driver:{}", if case.poll_driver { "poll" } else { "iour" }), format!("event_interval:{ei}")];
+        let mut log_read = 0usize;
+        let mut last_poll_pre: Option<Instant> = None;
+        let mut verdict: Option<Verdict> = None;
+        let mut max_late = Duration::ZERO;
+        let mut loops = 0usize;
+
+        'outer: loop {
+            loops += 1;
+            // ---- 1. due events
+            loop {
+                let now = Instant::now();
+                match heap.peek() {
+                    Some(ev) if ev.at <= now => {}
+                    _ => break,
+                }
+                let ev = heap.pop().unwrap();
+                match ev.what {
+                    EvKind::Create(i) => {
+                        let spec = &case.timers[i];
+                        let t_before = Instant::now();
+                        // requested deadline
+                        let (want, dur): (Instant, Duration) = match spec.dl {
+                            Dl::Past(x) => (t_before.checked_sub(ms(x as u64 % 50 + 1)).unwrap_or(t_before), Duration::ZERO),
+                            Dl::Now => (t_before, Duration::ZERO),
+                            Dl::Group(g) => {
+                                let d = base + ms(GROUPS_MS[g as usize % 3]);
+                                (d, d.saturating_duration_since(t_before))
+                            }
+                            Dl::Near(x) => (t_before + ms(x as u64 % 30 + 1), ms(x as u64 % 30 + 1)),
+                            Dl::Far(x) => (t_before + ms(200 + x as u64 % 401), ms(200 + x as u64 % 401)),
+                        };
+                        let lead_ok = |lead: u8| want.saturating_duration_since(t_before) >= ms(lead as u64 % 71 + 30) + ms(10);
+                        let lead_of = |lead: u8| ms(lead as u64 % 71 + 30);
+                        // by-construction adjustment of the inner future (no ties are generated)
+                        let adjust = |inner: Inner| -> Inner {
+                            let future = want > t_before + ms(1);
+                            match inner {
+                                Inner::Ready if !future => Inner::Pending,
+                                Inner::SleepShort { lead_ms } if !lead_ok(lead_ms) => {
+                                    if future {
+                                        Inner::Ready
+                                    } else {
+                                        Inner::Pending
+                                    }
+                                }
+                                Inner::PipeFed { lead_ms } if !lead_ok(lead_ms) => Inner::PipeNeverFed,
+                                x => x,
+                            }
+                        };
+                        let log2 = log.clone();
+                        let mut new_entries: Vec<Entry> = vec![];
+                        let fut: Pin<Box<dyn Future<Output = ()>>> = match spec.kind {
+                            Kind::Sleep => {
+                                let s = sleep(dur);
+                                let t_after = Instant::now();
+                                st[i].deadline = Some(t_before + dur);
+                                new_entries.push(Entry { owner: i, inner: false, lower: t_before + dur, upper: t_after + dur, definite: false, alive: true });
+                                labels.push("kind:sleep".into());
+                                Box::pin(async move {
+                                    s.await;
+                                    let at = Instant::now();
+                                    log2.borrow_mut().push(Rec::Done { i, at, ok: None, data: None });
+                                })
+                            }
+                            Kind::SleepUntil => {
+                                let s = sleep_until(want);
+                                st[i].deadline = Some(want);
+                                st[i].absolute = true;
+                                new_entries.push(Entry { owner: i, inner: false, lower: want, upper: want, definite: false, alive: true });
+                                labels.push("kind:sleep_until".into());
+                                Box::pin(async move {
+                                    s.await;
+                                    let at = Instant::now();
+                                    log2.borrow_mut().push(Rec::Done { i, at, ok: None, data: None });
+                                })
+                            }
+                            Kind::Timeout(inner) | Kind::TimeoutAt(inner) => {
+                                let absolute = matches!(spec.kind, Kind::TimeoutAt(_));
+                                let inner = adjust(inner);
+                                st[i].inner = Some(inner);
+                                labels.push(format!("kind:{}", if absolute { "timeout_at" } else { "timeout" }));
+                                labels.push(format!("inner:{}", inner_name(inner)));
+                                // the inner future (its own sleep is created eagerly, so the wheel content is known)
+                                let log3 = log.clone();
+                                let inner_fut: Pin<Box<dyn Future<Output = u8>>> = match inner {
+                                    Inner::Ready => Box::pin(async { 7u8 }),
+                                    Inner::Pending => Box::pin(std::future::pending::<u8>()),
+                                    Inner::SleepShort { lead_ms } => {
+                                        let d = want - lead_of(lead_ms);
+                                        let s = sleep_until(d);
+                                        new_entries.push(Entry { owner: i, inner: true, lower: d, upper: d, definite: false, alive: true });
+                                        Box::pin(async move {
+                                            s.await;
+                                            log3.borrow_mut().push(Rec::InnerDone { i, at: Instant::now() });
+                                            1u8
+                                        })
+                                    }
+                                    Inner::SleepLong => {
+                                        let d = want + ms(5000);
+                                        let s = sleep_until(d);
+                                        new_entries.push(Entry { owner: i, inner: true, lower: d, upper: d, definite: false, alive: true });
+                                        Box::pin(async move {
+                                            s.await;
+                                            log3.borrow_mut().push(Rec::InnerDone { i, at: Instant::now() });
+                                            2u8
+                                        })
+                                    }
+                                    Inner::PipeFed { .. } | Inner::PipeNeverFed => {
+                                        let (rx, tx) = match mk_pipe() {
+                                            Ok(p) => p,
+                                            Err(e) => {
+                                                verdict = Some(Verdict::Inconclusive(format!("pipe: {e}")));
+                                                break 'outer;
+                                            }
+                                        };
+                                        let afd = match AsyncFd::new(rx) {
+                                            Ok(a) => a,
+                                            Err(e) => {
+                                                verdict = Some(Verdict::Inconclusive(format!("attach: {e}")));
+                                                break 'outer;
+                                            }
+                                        };
+                                        st[i].feed_fd = Some(tx);
+                                        if let Inner::PipeFed { lead_ms } = inner {
+                                            heap.push(Ev { at: want - lead_of(lead_ms), seq, what: EvKind::Feed(i) });
+                                            seq += 1;
+                                        }
+                                        Box::pin(async move {
+                                            let BufResult(r, b) = (&afd).read(Vec::with_capacity(4)).await;
+                                            match r {
+                                                Ok(1) => b[0],
+                                                _ => 0xEE,
+                                            }
+                                        })
+                                    }
+                                };
+                                let (t, lower, upper) = if absolute {
+                                    st[i].absolute = true;
+                                    (timeout_at(want, inner_fut), want, want)
+                                } else {
+                                    let t = timeout(dur, inner_fut);
+                                    let t_after = Instant::now();
+                                    (t, t_before + dur, t_after + dur)
+                                };
+                                st[i].deadline = Some(lower);
+                                new_entries.push(Entry { owner: i, inner: false, lower, upper, definite: false, alive: true });
+                                Box::pin(async move {
+                                    let r = t.await;
+                                    let at = Instant::now();
+                                    log2.borrow_mut().push(Rec::Done { i, at, ok: Some(r.is_ok()), data: r.ok() });
+                                })
+                            }
+                            Kind::Interval { period_ms, ticks } | Kind::IntervalAt { period_ms, ticks } => {
+                                let period = ms(period_ms as u64 % 14 + 2);
+                                let ticks = ticks as usize % 4 + 1;
+                                let absolute = matches!(spec.kind, Kind::IntervalAt { .. });
+                                let mut iv: Interval = if absolute { interval_at(want, period) } else { interval(period) };
+                                st[i].period = Some(period);
+                                if absolute {
+                                    st[i].absolute = true;
+                                    st[i].deadline = Some(want);
+                                } else {
+                                    st[i].deadline = Some(t_before);
+                                }
+                                labels.push(format!("kind:{}", if absolute { "interval_at" } else { "interval" }));
+                                Box::pin(async move {
+                                    for k in 0..ticks {
+                                        let tick = iv.tick().await;
+                                        let at = Instant::now();
+                                        log2.borrow_mut().push(Rec::Tick { i, k, tick, at });
+                                    }
+                                    log2.borrow_mut().push(Rec::IntervalDone { i });
+                                })
+                            }
+                        };
+                        let t_after = Instant::now();
+                        for mut e in new_entries {
+                            e.definite = e.upper > t_after;
+                            entries.push(e);
+                        }
+                        st[i].created = Some(t_before);
+                        labels.push(
+                            match spec.dl {
+                                Dl::Past(_) => "dl:past",
+                                Dl::Now => "dl:now",
+                                Dl::Group(_) => "dl:group",
+                                Dl::Near(_) => "dl:near",
+                                Dl::Far(_) => "dl:far",
+                            }
+                            .into(),
+                        );
+                        st[i].host = if spec.task {
+                            labels.push("host:task".into());
+                            Host::Task(rt.spawn(fut))
+                        } else {
+                            labels.push("host:held".into());
+                            let flag = Arc::new(FlagWaker { flag: AtomicBool::new(true), inner: rt.waker(), wakes: AtomicUsize::new(0) });
+                            Host::Held { fut, flag }
+                        };
+                        if let Some(d) = spec.drop_after_ms {
+                            heap.push(Ev { at: t_before + ms(d as u64 % 301), seq, what: EvKind::Drop(i) });
+                            seq += 1;
+                        }
+                        if spec.stall && want > t_before + ms(4) {
+                            let from = match st[i].inner {
+                                Some(Inner::SleepShort { lead_ms }) => (want - lead_of(lead_ms)).checked_sub(ms(3)).unwrap_or(want),
+                                // same instant as the feed event, later sequence number: feed first
+                                Some(Inner::PipeFed { lead_ms }) => want - lead_of(lead_ms),
+                                _ => want - ms(3),
+                            };
+                            heap.push(Ev { at: from, seq, what: EvKind::Stall(want + ms(10)) });
+                            seq += 1;
+                            labels.push("stall-across-deadline".into());
+                        }
+                    }
+                    EvKind::Drop(i) => {
+                        if !st[i].done && !st[i].dropped {
+                            st[i].dropped = true;
+                            let now = Instant::now();
+                            if st[i].period.is_some() || st[i].deadline.map(|d| d > now).unwrap_or(false) {
+                                st[i].dropped_before_expiry = true;
+                                labels.push("dropped-before-expiry".into());
+                            } else {
+                                labels.push("dropped-after-deadline".into());
+                            }
+                            // dropping a held future / the JoinHandle of a task (cancels it)
+                            st[i].host = Host::Gone;
+                            for e in entries.iter_mut().filter(|e| e.owner == i) {
+                                e.alive = false;
+                            }
+                        }
+                    }
+                    EvKind::Stall(until) => {
+                        let now = Instant::now();
+                        if until > now {
+                            std::thread::sleep(until - now);
+                        }
+                    }
+                    EvKind::Feed(i) => {
+                        if !st[i].done && !st[i].dropped {
+                            if let Some(fd) = &st[i].feed_fd {
+                                if write_byte(fd, 0x5A) {
+                                    st[i].fed_at = Some(Instant::now());
+                                }
+                            }
+                        }
+                    }
+                }
+            }
+
+            // ---- 2./3. poll what was woken until nothing is runnable any more
+            let mut rounds = 0;
+            loop {
+                rounds += 1;
+                let mut progressed = false;
+                for s in st.iter_mut() {
+                    let mut finished = false;
+                    if let Host::Held { fut, flag } = &mut s.host {
+                        if flag.flag.swap(false, Ordering::SeqCst) {
+                            progressed = true;
+                            let w = Waker::from(flag.clone());
+                            let mut cx = Context::from_waker(&w);
+                            if fut.as_mut().poll(&mut cx).is_ready() {
+                                finished = true;
+                            }
+                        }
+                    }
+                    if finished {
+                        s.host = Host::Gone;
+                    }
+                }
+                let mut guard = 0;
+                while rt.run() {
+                    guard += 1;
+                    if guard > 10_000 {
+                        verdict = Some(Verdict::Inconclusive("executor never became idle".into()));
+                        break 'outer;
+                    }
+                }
+                if !progressed || rounds > 1000 {
+                    break;
+                }
+            }
+            for s in st.iter_mut() {
+                let fin = matches!(&s.host, Host::Task(h) if h.is_finished());
+                if fin {
+                    s.host = Host::Gone;
+                }
+            }
+
+            // ---- 4. new records: the exact oracles
+            let t_after_run = Instant::now();
+            let recs: Vec<Rec> = log.borrow()[log_read..].to_vec();
+            log_read += recs.len();
+            for r in recs {
+                match r {
+                    Rec::Done { i, at, ok, data } => {
+                        let s = &mut st[i];
+                        if s.dropped {
+                            verdict = Some(hard("C09/completed-after-drop", format!("timer #{i} {:?} recorded a completion after it was dropped", case.timers[i])));
+                            break 'outer;
+                        }
+                        s.done = true;
+                        for e in entries.iter_mut().filter(|e| e.owner == i) {
+                            e.alive = false;
+                        }
+                        let d = s.deadline.unwrap();
+                        if ok != Some(true) && at < d {
+                            verdict = Some(hard(
+                                &format!("C09/fired-early/{}", kind_name(&case.timers[i].kind)),
+                                format!("timer #{i} {:?} completed {:?} before its deadline", case.timers[i], d - at),
+                            ));
+                            break 'outer;
+                        }
+                        if ok != Some(true) {
+                            max_late = max_late.max(at - d);
+                        }
+                        if let Some(inner) = s.inner {
+                            let got_ok = ok == Some(true);
+                            let expect: Option<bool> = match inner {
+                                Inner::Ready | Inner::SleepShort { .. } => Some(true),
+                                Inner::Pending | Inner::PipeNeverFed => Some(false),
+                                Inner::SleepLong => {
+                                    if got_ok && at >= d + ms(4000) {
+                                        verdict = Some(Verdict::Inconclusive("harness stalled for seconds".into()));
+                                        break 'outer;
+                                    }
+                                    Some(false)
+                                }
+                                Inner::PipeFed { .. } => match s.fed_at {
+                                    Some(f) if f + MARGIN <= d => Some(true),
+                                    Some(_) => {
+                                        labels.push("feed-too-late-to-judge".into());
+                                        None
+                                    }
+                                    None => Some(false),
+                                },
+                            };
+                            let is_soft = matches!(inner, Inner::PipeFed { .. });
+                            if let Some(e) = expect {
+                                if e != got_ok {
+                                    let sig = format!("C09/timeout/{}/inner-{}", if got_ok { "ok-but-inner-unfinished" } else { "elapsed-but-inner-finished-first" }, inner_name(inner));
+                                    let detail = format!(
+                                        "timer #{i} {:?}: result {}, deadline {:?} after creation, resolved {:?} after creation, fed {:?}",
+                                        case.timers[i],
+                                        if got_ok { "Ok" } else { "Err(Elapsed)" },
+                                        d.saturating_duration_since(s.created.unwrap()),
+                                        at - s.created.unwrap(),
+                                        s.fed_at.map(|f| f - s.created.unwrap())
+                                    );
+                                    verdict = Some(if is_soft { soft(&sig, detail) } else { hard(&sig, detail) });
+                                    break 'outer;
+                                }
+                                labels.push(format!("timeout:{}", if got_ok { "ok" } else { "elapsed" }));
+                            }
+                            if got_ok {
+                                let want = match inner {
+                                    Inner::Ready => Some(7u8),
+                                    Inner::SleepShort { .. } => Some(1),
+                                    Inner::PipeFed { .. } => Some(0x5A),
+                                    _ => None,
+                                };
+                                if want.is_some() && data != want {
+                                    verdict = Some(hard("C09/timeout/wrong-inner-value", format!("timer #{i}: Ok({data:?}) but the inner future yields {want:?}")));
+                                    break 'outer;
+                                }
+                            }
+                        }
+                    }
+                    Rec::InnerDone { i, at } => {
+                        if let Some(e) = entries.iter_mut().find(|e| e.owner == i && e.inner) {
+                            e.alive = false;
+                            if at < e.lower {
+                                verdict = Some(hard("C09/fired-early/inner-sleep", format!("inner sleep of timer #{i} completed {:?} early", e.lower - at)));
+                                break 'outer;
+                            }
+                        }
+                    }
+                    Rec::Tick { i, k, tick, at } => {
+                        let s = &mut st[i];
+                        let period = s.period.unwrap();
+                        if k == 0 {
+                            s.first_tick = Some(tick);
+                            if s.absolute && tick != s.deadline.unwrap() {
+                                verdict = Some(hard("C09/interval/first-tick-not-start", format!("interval #{i}: first tick differs from the start instant")));
+                                break 'outer;
+                            }
+                            if !s.absolute && (tick < s.created.unwrap() || tick > at) {
+                                verdict = Some(hard("C09/interval/first-tick-not-start", format!("interval #{i}: first tick is not the creation instant")));
+                                break 'outer;
+                            }
+                        } else {
+                            let start = s.first_tick.unwrap();
+                            let off = tick.saturating_duration_since(start);
+                            if tick <= s.last_tick.unwrap() || off.as_nanos() % period.as_nanos() != 0 {
+                                verdict = Some(hard(
+                                    "C09/interval/tick-not-aligned",
+                                    format!("interval #{i} {:?}: tick {k} is start + {off:?}, period {period:?} (remainder {} ns)", case.timers[i], off.as_nanos() % period.as_nanos()),
+                                ));
+                                break 'outer;
+                            }
+                        }
+                        if at < tick {
+                            verdict = Some(hard("C09/fired-early/interval", format!("interval #{i} tick {k} completed {:?} before the tick instant", tick - at)));
+                            break 'outer;
+                        }
+                        max_late = max_late.max(at - tick);
+                        s.last_tick = Some(tick);
+                        s.ticks_seen = k + 1;
+                        labels.push("interval-tick".into());
+                    }
+                    Rec::IntervalDone { i } => {
+                        st[i].done = true;
+                    }
+                }
+            }
+
+            // ---- 5. wheel oracles (state is quiescent: everything woken has been polled)
+            let unresolved: Vec<usize> = (0..n).filter(|&i| st[i].created.is_some() && !st[i].done && !st[i].dropped).collect();
+            // 5a. always fires: deadline before the instant read before the last poll => completed by now
+            if let Some(tp) = last_poll_pre {
+                if let Some(e) = entries.iter().find(|e| e.alive && e.definite && e.upper <= tp) {
+                    let i = e.owner;
+                    verdict = Some(hard(
+                        &format!("C09/not-fired/{}", if e.inner { "inner-sleep".into() } else { kind_name(&case.timers[i].kind) }),
+                        format!(
+                            "timer #{i} {:?}: deadline passed {:?} before the last poll started, the poll returned and every woken future was polled, but the timer has not completed (current_timeout = {:?})",
+                            case.timers[i],
+                            tp - e.upper,
+                            rt.current_timeout()
+                        ),
+                    ));
+                    break 'outer;
+                }
+            }
+            let t0 = Instant::now();
+            let ct = rt.current_timeout();
+            // 5b. a pending timer future needs a wheel entry
+            if ct.is_none() && !unresolved.is_empty() {
+                let i = unresolved[0];
+                verdict = Some(hard(
+                    &format!("C09/pending-with-empty-wheel/{}", kind_name(&case.timers[i].kind)),
+                    format!("timer #{i} {:?} is still pending but current_timeout() is None: nothing will ever wake it", case.timers[i]),
+                ));
+                break 'outer;
+            }
+            // 5c. never longer than the nearest known deadline
+            if let Some(e) = entries.iter().filter(|e| e.alive && e.definite).min_by_key(|e| e.upper) {
+                let bound = e.upper.saturating_duration_since(t0);
+                match ct {
+                    Some(c) if c <= bound => {}
+                    _ => {
+                        verdict = Some(hard(
+                            "C09/current_timeout-exceeds-nearest-deadline",
+                            format!("current_timeout() = {ct:?} but timer #{} {:?} is due in {bound:?}", e.owner, case.timers[e.owner]),
+                        ));
+                        break 'outer;
+                    }
+                }
+            }
+            // 5d. no residue: no timer future left => empty wheel
+            let all_created = heap.iter().all(|e| !matches!(e.what, EvKind::Create(_)));
+            if unresolved.is_empty() && ct.is_some() {
+                verdict = Some(hard(
+                    "C09/residue-after-completion-or-drop",
+                    format!("no timer future is alive (all finished or dropped) but current_timeout() = {ct:?}"),
+                ));
+                break 'outer;
+            }
+            if unresolved.is_empty() && all_created {
+                break;
+            }
+            if t_after_run > rescue_at + ms(3000) || loops > 200_000 {
+                verdict = Some(Verdict::Inconclusive("case overran its time budget".into()));
+                break;
+            }
+            if ctl.rescued.load(Ordering::SeqCst) {
+                // the runtime slept until another thread woke it although it knew an earlier deadline
+                if let Some(e) = entries.iter().find(|e| e.alive && e.definite && e.upper + ms(1500) <= t0) {
+                    verdict = Some(soft(
+                        "C09/overslept-until-rescued",
+                        format!("timer #{} was overdue by {:?} and the loop only continued after the rescue wake-up", e.owner, t0 - e.upper),
+                    ));
+                } else {
+                    verdict = Some(Verdict::Inconclusive("rescue wake-up fired without an overdue timer".into()));
+                }
+                break;
+            }
+
+            // ---- 6. wait: the runtime's own `poll()` when nothing is scheduled by the harness, else
+            // poll_with(min(current_timeout, time to the next harness event))
+            let next_ev = heap.peek().map(|e| e.at);
+            let pre = Instant::now();
+            match next_ev {
+                None => {
+                    last_poll_pre = Some(pre);
+                    rt.poll();
+                }
+                Some(at) => {
+                    let to_ev = at.saturating_duration_since(pre);
+                    let t = match ct {
+                        Some(c) => c.min(to_ev),
+                        None => to_ev,
+                    };
+                    last_poll_pre = Some(pre);
+                    rt.poll_with(Some(t));
+                }
+            }
+        }
+
+        // ---- shutdown: stop the noise thread, drop everything, the wheel must be empty
+        *ctl.stop.lock().unwrap() = true;
+        ctl.cv.notify_all();
+        let _ = noise_thread.join();
+        for s in st.iter_mut() {
+            s.host = Host::Gone;
+        }
+        drop(bg);
+        let mut guard = 0;
+        while rt.run() && guard < 10_000 {
+            guard += 1;
+        }
+        if verdict.is_none() {
+            if let Some(ct) = rt.current_timeout() {
+                verdict = Some(hard("C09/residue-after-completion-or-drop", format!("everything finished or dropped, current_timeout() = {ct:?}")));
+            }
+        }
+        match verdict {
+            Some(v) => v,
+            None => {
+                // non-triviality: >= 3 timers, one dropped before expiry, one pair of equal deadlines
+                let mut abs: Vec<Instant> = (0..n).filter(|&i| st[i].absolute).filter_map(|i| st[i].deadline).collect();
+                abs.sort();
+                let equal_pair = abs.windows(2).any(|w| w[0] == w[1]);
+                let dropped = st.iter().any(|s| s.dropped_before_expiry);
+                if equal_pair {
+                    labels.push("equal-deadlines".into());
+                }
+                if max_late > ms(250) {
+                    labels.push("late>250ms(load)".into());
+                } else if max_late > ms(50) {
+                    labels.push("late>50ms(load)".into());
+                }
+                let (pb, cw) = *noise_seen.borrow();
+                if pb > 0 {
+                    labels.push("noise:pipe-completions".into());
+                }
+                if cw > 0 {
+                    labels.push("noise:cross-thread-wakes".into());
+                }
+                labels.push(format!("timers:{}", if n >= 8 { "8-12" } else if n >= 3 { "3-7" } else { "1-2" }));
+                labels.sort();
+                labels.dedup();
+                Verdict::Pass { nontrivial: n >= 3 && equal_pair && dropped, labels }
+            }
+        }
+    });
+    drop(rt);
+    verdict
+}
+
+fn kind_name(k: &Kind) -> String {
+    match k {
+        Kind::Sleep => "sleep",
+        Kind::SleepUntil => "sleep_until",
+        Kind::Timeout(_) => "timeout",
+        Kind::TimeoutAt(_) => "timeout_at",
+        Kind::Interval { .. } => "interval",
+        Kind::IntervalAt { .. } => "interval_at",
+    }
+    .into()
+}
+
+fn inner_name(i: Inner) -> &'static str {
+    match i {
+        Inner::Ready => "ready",
+        Inner::Pending => "pending",
+        Inner::SleepShort { .. } => "sleep-short",
+        Inner::SleepLong => "sleep-long",
+        Inner::PipeFed { .. } => "pipe-fed",
+        Inner::PipeNeverFed => "pipe-never-fed",
+    }
+}
+
+fn run_case(case: &TimerCase) -> Outcome {
+    // a verdict that depends on a wall-clock margin is re-measured; it counts only when it reproduces
+    let mut soft_hits: Vec<(String, String)> = vec![];
+    for attempt in 0..3 {
+        match run_once(case) {
+            Verdict::Pass { nontrivial, labels } => {
+                if attempt > 0 {
+                    return Outcome::inconclusive(format!("not reproduced on re-measurement: {}", soft_hits[0].0));
+                }
+                return Outcome::pass_owned(nontrivial, labels);
+            }
+            Verdict::Violation { soft: false, sig, detail } => return Outcome::violation(sig, detail),
+            Verdict::Violation { soft: true, sig, detail } => soft_hits.push((sig, detail)),
+            Verdict::Inconclusive(why) => return Outcome::inconclusive(why),
+        }
+    }
+    let (sig, detail) = soft_hits.pop().unwrap();
+    if soft_hits.iter().all(|(s, _)| *s == sig) {
+        Outcome::violation(sig, format!("{detail} (reproduced on 3 of 3 runs)"))
+    } else {
+        Outcome::inconclusive("soft verdicts differ between re-measurements")
+    }
+}
+
+// ------------------------------------------------------------------------------------------------
+// generators
+
+fn inner_strategy() -> impl Strategy<Value = Inner> + Clone {
+    prop_oneof![
+        3 => Just(Inner::Ready),
+        3 => Just(Inner::Pending),
+        3 => (0u8..=70).prop_map(|lead_ms| Inner::SleepShort { lead_ms }),
+        2 => Just(Inner::SleepLong),
+        2 => (0u8..=70).prop_map(|lead_ms| Inner::PipeFed { lead_ms }),
+        1 => Just(Inner::PipeNeverFed),
+    ]
+}
+
+fn kind_strategy() -> impl Strategy<Value = Kind> + Clone {
+    prop_oneof![
+        3 => Just(Kind::Sleep),
+        5 => Just(Kind::SleepUntil),
+        2 => inner_strategy().prop_map(Kind::Timeout),
+        4 => inner_strategy().prop_map(Kind::TimeoutAt),
+        1 => (0u8..14, 0u8..4).prop_map(|(period_ms, ticks)| Kind::Interval { period_ms, ticks }),
+        2 => (0u8..14, 0u8..4).prop_map(|(period_ms, ticks)| Kind::IntervalAt { period_ms, ticks }),
+    ]
+}
+
+fn dl_strategy() -> impl Strategy<Value = Dl> + Clone {
+    prop_oneof![
+        1 => (0u8..50).prop_map(Dl::Past),
+        1 => Just(Dl::Now),
+        7 => prop_oneof![4 => Just(0u8), 2 => Just(1u8), 1 => Just(2u8)].prop_map(Dl::Group),
+        4 => (0u8..30).prop_map(Dl::Near),
+        2 => (0u16..=400).prop_map(Dl::Far),
+    ]
+}
+
+fn timer_strategy() -> impl Strategy<Value = TimerSpec> + Clone {
+    (
+        prop_oneof![3 => Just(0u8), 3 => 0u8..=12, 1 => 13u8..=40],
+        kind_strategy(),
+        dl_strategy(),
+        any::<bool>(),
+        proptest::option::weighted(0.4, prop_oneof![2 => Just(0u16), 4 => 1u16..=20, 2 => 100u16..=300]),
+        proptest::bool::weighted(0.2),
+    )
+        .prop_map(|(create_ms, kind, dl, task, drop_after_ms, stall)| {
+            // inner futures that need room before the deadline get a far deadline (by construction)
+            let needs_room = matches!(kind, Kind::Timeout(Inner::SleepShort { .. } | Inner::PipeFed { .. }) | Kind::TimeoutAt(Inner::SleepShort { .. } | Inner::PipeFed { .. }));
+            let dl = match dl {
+                Dl::Far(_) => dl,
+                Dl::Group(g) if needs_room => Dl::Far(g as u16 * 97 + create_ms as u16),
+                Dl::Near(x) | Dl::Past(x) if needs_room => Dl::Far(x as u16 * 7),
+                Dl::Now if needs_room => Dl::Far(0),
+                d => d,
+            };
+            TimerSpec { create_ms, kind, dl, task, drop_after_ms, stall }
+        })
+}
+
+fn case_strategy() -> impl Strategy<Value = TimerCase> + Clone {
+    (
+        any::<bool>(),
+        0u8..3,
+        prop_oneof![1 => vec(timer_strategy(), 1..=2), 6 => vec(timer_strategy(), 3..=12)],
+        vec((0u16..650, prop_oneof![Just(Noise::PipeByte), Just(Noise::CrossWake)]), 0..=8),
+    )
+        .prop_map(|(poll_driver, event_interval, timers, noise)| TimerCase { poll_driver, event_interval, timers, noise })
+        // 60 % of the cases get, by construction, two timers on the same group instant (absolute kinds) and
+        // one timer that is dropped well before its far deadline
+        .prop_flat_map(|c| (Just(c), proptest::bool::weighted(0.6), 0u8..3, 0u16..=400, 1u16..=20))
+        .prop_map(|(mut c, force, g, far, drop_ms)| {
+            if force && c.timers.len() >= 3 {
+                for t in c.timers.iter_mut().take(2) {
+                    t.dl = Dl::Group(g);
+                    t.kind = match t.kind {
+                        Kind::Sleep => Kind::SleepUntil,
+                        Kind::Timeout(Inner::SleepShort { .. } | Inner::PipeFed { .. }) | Kind::TimeoutAt(Inner::SleepShort { .. } | Inner::PipeFed { .. }) => Kind::TimeoutAt(Inner::Pending),
+                        Kind::Timeout(i) => Kind::TimeoutAt(i),
+                        Kind::Interval { period_ms, ticks } => Kind::IntervalAt { period_ms, ticks },
+                        k => k,
+                    };
+                    t.create_ms = t.create_ms.min(10);
+                }
+                let t = &mut c.timers[2];
+                if !matches!(t.dl, Dl::Far(_)) {
+                    t.dl = Dl::Far(far);
+                }
+                t.drop_after_ms = Some(drop_ms);
+            }
+            c
+        })
+}
+
+fn main() {
+    let mut s = Session::new();
+    let mut p = Part::new(
+        "C09",
+        "timers",
+        "case = driver (io_uring | polling) x event_interval (1,2,61) x 1-12 timers {kind: sleep, sleep_until, timeout(inner), timeout_at(inner), \
+         interval, interval_at (period 2-15 ms, 1-4 ticks); deadline class: past, now, one of three shared group instants (equal deadlines), \
+         1-30 ms, 200-600 ms; created 0-40 ms after the start; hosted in a spawned task or held by the harness loop; optionally dropped \
+         0/1-20/100-300 ms after creation; optionally the harness does not step the runtime across the deadline (stall); inner futures: ready, pending, sleep ending 30-100 ms before the deadline, sleep ending 5 s after it, \
+         pipe read fed 30-100 ms before the deadline, pipe read never fed} x 0-8 noise events from another thread (pipe byte for a reader task, \
+         cross-thread task wake-up). Non-trivial = at least 3 timers, at least one dropped before its deadline and one pair of equal deadlines; \
+         distinct = distinct serialised case.",
+    );
+    p.quick_cases = 800;
+    p.thorough_cases = 32_000;
+    p.threads = 16;
+    p.max_shrink_iters = 120;
+    p.replay_repeats = 3;
+    p.assumptions = vec![
+        "Instant is the monotonic clock; a completion instant is read by the timer future itself right after its await returns",
+        "timeout ties are not generated: inner futures are ready at once, finish >= 30 ms before the deadline, or never finish while the timeout lives",
+        "lateness is never a violation: the always-fires oracle is the deterministic loop-step form (see notes/C09.md)",
+    ];
+    let t = |create_ms, kind, dl, task, drop_after_ms| TimerSpec { create_ms, kind, dl, task, drop_after_ms, stall: false };
+    let ts = |create_ms, kind, dl, task| TimerSpec { create_ms, kind, dl, task, drop_after_ms: None, stall: true };
+    p.regressions = vec![
+        (
+            "equal-group-drop-and-far",
+            TimerCase {
+                poll_driver: false,
+                event_interval: 2,
+                timers: vec![
+                    t(0, Kind::SleepUntil, Dl::Group(0), true, None),
+                    t(0, Kind::SleepUntil, Dl::Group(0), false, None),
+                    t(1, Kind::TimeoutAt(Inner::Pending), Dl::Group(0), true, None),
+                    t(0, Kind::SleepUntil, Dl::Far(0), true, Some(5)),
+                    t(2, Kind::Sleep, Dl::Near(4), false, None),
+                    t(0, Kind::SleepUntil, Dl::Far(100), false, None),
+                    t(3, Kind::IntervalAt { period_ms: 3, ticks: 3 }, Dl::Group(1), true, None),
+                    t(3, Kind::TimeoutAt(Inner::SleepShort { lead_ms: 10 }), Dl::Far(50), true, None),
+                    t(4, Kind::Timeout(Inner::PipeFed { lead_ms: 20 }), Dl::Far(20), false, None),
+                    t(4, Kind::TimeoutAt(Inner::SleepLong), Dl::Near(10), true, None),
+                    t(5, Kind::SleepUntil, Dl::Past(3), true, None),
+                    t(5, Kind::Interval { period_ms: 0, ticks: 3 }, Dl::Now, false, Some(250)),
+                ],
+                noise: vec![(3, Noise::PipeByte), (16, Noise::CrossWake), (120, Noise::PipeByte), (300, Noise::CrossWake)],
+            },
+        ),
+        (
+            "inner-finishes-first-but-polled-after-the-deadline",
+            TimerCase {
+                poll_driver: false,
+                event_interval: 2,
+                timers: vec![
+                    ts(0, Kind::TimeoutAt(Inner::SleepShort { lead_ms: 5 }), Dl::Far(0), true),
+                    ts(0, Kind::Timeout(Inner::SleepShort { lead_ms: 20 }), Dl::Far(150), false),
+                    ts(1, Kind::TimeoutAt(Inner::PipeFed { lead_ms: 10 }), Dl::Far(300), true),
+                    ts(1, Kind::SleepUntil, Dl::Group(1), false),
+                    t(1, Kind::SleepUntil, Dl::Group(1), true, Some(2)),
+                ],
+                noise: vec![(210, Noise::CrossWake)],
+            },
+        ),
+        (
+            "near-behind-far-poll-driver",
+            TimerCase {
+                poll_driver: true,
+                event_interval: 0,
+                timers: vec![
+                    t(0, Kind::SleepUntil, Dl::Far(400), true, None),
+                    t(0, Kind::SleepUntil, Dl::Near(5), true, None),
+                    t(0, Kind::Sleep, Dl::Near(5), false, None),
+                    t(1, Kind::SleepUntil, Dl::Group(2), true, Some(1)),
+                    t(1, Kind::SleepUntil, Dl::Group(2), false, None),
+                ],
+                noise: vec![],
+            },
+        ),
+    ];
+    s.run_part(p, case_strategy(), run_case);
+    s.finish();
+}
